@@ -523,7 +523,9 @@ C05_RULE = ("cases = (program, input, width) from divergent idioms (empty loop o
 C17_RULE = ("cases = growth-heavy programs (first allocation, grow left, grow right, both, far moves, scans, input-driven growth, generated roaming) x 4 back ends x levels {0,2}; a clean run "
             "counts the N allocations made during execute; then for k = 1..N (capped at 60 quick / 400 thorough) one forked run in which the k-th allocation returns null. Accepted endings: SIGABRT "
             "(allocation-failure abort) or a caught panic, with the event log a prefix of the canonical one; a memory fault (handler installed for SIGSEGV/SIGBUS), any other signal or a normal return is a violation. "
-            "distinct_nontrivial counts distinct (program, width, back end, level, k) with the failing request actually reached.")
+            "distinct_nontrivial counts distinct (program, width, back end, level, k) with the failing request actually reached. A second stage asks the tape API for cells no allocator can provide: "
+            "21 positions at +-(2^60, 2^61, 2^62) +- 1 and at the ends of isize x 4 widths x {fresh tape, 21 written cells} x {mov + write, make_accessible, write at offset} under the plain allocator, "
+            "each in a forked child; accepted endings are the abort and a panic, a normal return or a memory fault is a violation.")
 
 
 C11_RULE = ("cases = source programs from the corpus and the C03 generator mix (structured idioms, register-pressure systems, pressure x pointer moves, mutants, scans, roaming); every case is "
@@ -1006,6 +1008,7 @@ def replay(path):
         "smallvec_history": lambda: [binary, "c18replay", "--n", str(v["n"]), "--tracked", "true" if v["tracked"] else "false", "--hist-seed", str(v["hist_seed"]), "--index", str(v["index"]), "--ops", str(v["ops"])],
         "bytecode": lambda: [binary, "c11replay", "--code", v["program"], "--bits", str(v["bits"]), "--input-hex", v.get("input_hex", "")],
         "compile": lambda: [binary, "c13replay", "--code", v.get("program", ""), "--bits", str(v.get("bits", 8))],
+        "huge_request": lambda: [binary, "c17", "--prop", "C17", "--seed", "1", "--shard", "0", "--nshards", "1", "--count", "0", "--secs", "100", "--tier", "quick", "--out", os.path.join(OUT, "replay_c17.json"), "--replay-dir", os.path.join(OUT, "replays", "C17"), "--huge-only", "1", "--huge-case", v.get("huge_case", "")],
         "growth": lambda: [binary, "c13growth", "--family", v.get("family", "all"), "--seed", str(v.get("case_seed", 1)), "--index", str(v.get("index", 0))],
     }
     if kind in simple:
